@@ -46,9 +46,9 @@ fn full_offset_check() {
     assert!(res.is_ok() == in_range, "[C03] offset_to_next is accepted exactly in 64..=10064");
     if let Err(e) = &res {
         assert!(e.kind() == std::io::ErrorKind::InvalidData, "[C03][C16] bad offset_to_next is a fatal InvalidData error");
-        assert!(unsafe { SENT_FATAL } == if with_ch { 1 } else { 0 } && unsafe { SENT_TOTAL } == unsafe { SENT_FATAL }, "[C03][C16] exactly one fatal message is sent");
+        assert!(unsafe { IREC.fatal } == if with_ch { 1 } else { 0 } && unsafe { IREC.total } == unsafe { IREC.fatal }, "[C03][C16] exactly one fatal message is sent");
     } else {
-        assert!(unsafe { SENT_TOTAL } == 0, "[C03][C01] nothing is sent for an accepted offset");
+        assert!(unsafe { IREC.total } == 0, "[C03][C01] nothing is sent for an accepted offset");
     }
     core::mem::forget(s);
 }
@@ -177,12 +177,12 @@ fn bnd_collect_rdh_seen() {
     let rb = RdhCru::from_buf(&b[..]).unwrap();
     let mut sc = scanner_over([0u8; NBUF], NBUF, 64, None, false, true);
     sc.collect_rdh_seen_stats(&ra);
-    assert!(unsafe { SENT_LINKS } == 1 && unsafe { LAST_LINK } == a[12], "[C14] the first header's link is reported");
-    assert!(unsafe { SENT_FEES } == 1 && unsafe { LAST_FEE } == s_fee_id(&a), "[C14] the first header's FEE id is reported");
+    assert!(unsafe { IREC.links } == 1 && unsafe { IREC.last_link } == a[12], "[C14] the first header's link is reported");
+    assert!(unsafe { IREC.fees } == 1 && unsafe { IREC.last_fee } == s_fee_id(&a), "[C14] the first header's FEE id is reported");
     sc.collect_rdh_seen_stats(&rb);
     sc.stats.as_mut().unwrap().flush_stats();
-    assert!(unsafe { SENT_RDH_SEEN } == 2, "[C14] every visited header is counted once");
-    assert!(unsafe { SENT_LINKS } == 1 + (b[12] != a[12]) as u32, "[C14] a link is reported exactly when it was not seen before, whatever the FEE id");
-    assert!(unsafe { SENT_FEES } == 1 + (s_fee_id(&b) != s_fee_id(&a)) as u32, "[C14] a FEE id is reported exactly when it was not seen before, whatever the link");
+    assert!(unsafe { IREC.rdh_seen } == 2, "[C14] every visited header is counted once");
+    assert!(unsafe { IREC.links } == 1 + (b[12] != a[12]) as u32, "[C14] a link is reported exactly when it was not seen before, whatever the FEE id");
+    assert!(unsafe { IREC.fees } == 1 + (s_fee_id(&b) != s_fee_id(&a)) as u32, "[C14] a FEE id is reported exactly when it was not seen before, whatever the link");
     core::mem::forget(sc);
 }
